@@ -16,6 +16,15 @@ ChkS(tr, ll, what, diag) ==
   IF diag = "" THEN TRUE
   ELSE Say([v |-> "MISMATCH", tid |-> tr.tid, l |-> ll, what |-> what, diag |-> diag]) /\ FALSE
 
+\* ---- binding of the transcribed decision procedures (C14): the reader may be
+\* stricter than its model on a proper prefix (an error, or fewer steps: the
+\* property allows both; reported as a NOTE), it must never expose more
+ModelClause(tr, p, what, obs, mod, full) ==
+  IF obs = mod THEN TRUE
+  ELSE IF ~full /\ obs < mod
+  THEN Say([v |-> "NOTE", tid |-> tr.tid, l |-> p, what |-> "the reader is stricter than its model on this prefix", got |-> obs, model |-> mod])
+  ELSE Chk(tr, p, what, obs, mod)
+
 \* ---- the content a reader must present for configuration c
 \* the variables: the species of a uamiv file, or the fixed variables of a
 \* meteorological format
@@ -138,25 +147,25 @@ TStep ==
                                                     tflag |-> o.tflag, etflag |-> <<>>], o.steps, TRUE)))
             \* the outcome is the one the transcribed decision procedure predicts
             /\ (tr.reader = "memmap" /\ c.fmt = "uamiv") =>
-                  Chk(tr, p, "prefix of " \o ToString(o.n) \o " bytes: outcome differs from the reader model",
+                  ModelClause(tr, p, "prefix of " \o ToString(o.n) \o " bytes: outcome differs from the reader model",
                       IF o.k = "Steps" THEN o.steps ELSE -1,
                       IF o.n > HeaderBytes(c) /\ (o.n - HeaderBytes(c)) % BlockBytes(c) = 0
-                      THEN (o.n - HeaderBytes(c)) \div BlockBytes(c) ELSE -1)
+                      THEN (o.n - HeaderBytes(c)) \div BlockBytes(c) ELSE -1, o.n = tr.nbytes)
             \* (when the size also fits the other variant the reader's marker
             \* comparison may or may not reject it: content dependent, not modelled)
             /\ (tr.reader = "memmap" /\ c.fmt = "cloud_rain" /\ ~CloudAliased(c, o.n)) =>
-                  Chk(tr, p, "prefix of " \o ToString(o.n) \o " bytes: outcome differs from the cloud/rain reader model",
+                  ModelClause(tr, p, "prefix of " \o ToString(o.n) \o " bytes: outcome differs from the cloud/rain reader model",
                       IF o.k = "Steps" THEN o.steps ELSE -1,
-                      LET w == CloudOpenF(c, o.n) IN IF w.k = "Steps" THEN w.n ELSE -1)
+                      LET w == CloudOpenF(c, o.n) IN IF w.k = "Steps" THEN w.n ELSE -1, o.n = tr.nbytes)
             /\ (tr.reader = "memmap" /\ c.fmt = "lateral_boundary") =>
-                  Chk(tr, p, "prefix of " \o ToString(o.n) \o " bytes: outcome differs from the lateral boundary reader model",
+                  ModelClause(tr, p, "prefix of " \o ToString(o.n) \o " bytes: outcome differs from the lateral boundary reader model",
                       IF o.k = "Steps" THEN o.steps ELSE -1,
                       IF o.n > HeaderBytes(c) /\ (o.n - HeaderBytes(c)) % BlockBytes(c) = 0
-                      THEN (o.n - HeaderBytes(c)) \div BlockBytes(c) ELSE -1)
+                      THEN (o.n - HeaderBytes(c)) \div BlockBytes(c) ELSE -1, o.n = tr.nbytes)
             /\ (tr.reader = "memmap" /\ c.fmt = "wind") =>
-                  Chk(tr, p, "prefix of " \o ToString(o.n) \o " bytes: outcome differs from the wind reader model",
+                  ModelClause(tr, p, "prefix of " \o ToString(o.n) \o " bytes: outcome differs from the wind reader model",
                       IF o.k = "Steps" THEN o.steps ELSE -1,
-                      LET w == WindOpenF(c, o.n, FALSE) IN IF w.k = "Steps" THEN w.n ELSE -1)
+                      LET w == WindOpenF(c, o.n, FALSE) IN IF w.k = "Steps" THEN w.n ELSE -1, o.n = tr.nbytes)
        [] tr.kind = "bigcuts" ->
           /\ Chk(tr, 1, "reference encoder produced the size the layout states", tr.nbytes, tr.expbytes)
           /\ \A p \in 1..Len(tr.obs) : LET o == tr.obs[p] IN
@@ -168,10 +177,10 @@ TStep ==
                   /\ \A q \in 1..Len(o.samples) : LET x == o.samples[q] IN
                        ChkT(tr, p, "prefix of " \o ToString(o.n) \o " bytes (mode " \o o.mode \o "): exposed data differ from the full file",
                             x[7] /\ x[6] = Token(x[1], x[2], x[3], x[4], x[5])))
-            /\ Chk(tr, p, "prefix of " \o ToString(o.n) \o " bytes (mode " \o o.mode \o "): outcome differs from the reader model",
+            /\ ModelClause(tr, p, "prefix of " \o ToString(o.n) \o " bytes (mode " \o o.mode \o "): outcome differs from the reader model",
                    IF o.k = "Steps" THEN o.steps ELSE -1,
                    IF o.n > UamivHeaderBytesA(c) /\ (o.n - UamivHeaderBytesA(c)) % UamivBlockBytesA(c) = 0
-                   THEN (o.n - UamivHeaderBytesA(c)) \div UamivBlockBytesA(c) ELSE -1)
+                   THEN (o.n - UamivHeaderBytesA(c)) \div UamivBlockBytesA(c) ELSE -1, o.n = tr.nbytes)
   /\ TrAccept(tr)
 TSpec == TInit /\ [][TStep]_tvars
 =================================================================================
